@@ -47,7 +47,8 @@ def gen(ch, tier):
         reqs.append(dict(role=ch.choice('role', ('source', 'source', 'relay')), plen=plen, mtu=mtu, tag=rix + 1,
                          flags=ch.choice('flags', (0, 0, 0, rfc9171.FLAG_NO_FRAGMENT, rfc9171.FLAG_IS_FRAGMENT)),
                          pri_crc=ch.pick('pc', 3), pay_crc=ch.pick('yc', 3), blocks=blocks,
-                         dest=ch.choice('dst', ('dtn://far/app', 'ipn:77.1'))))
+                         dest=ch.choice('dst', ('dtn://far/app', 'ipn:77.1')),
+                         ctime=ch.choice('ctime', (820000000000, 820000000000, 0)), frag_offset=ch.choice('foff', (10, 0))))
     return dict(scenario='bp_fragment', reqs=reqs, bib=ch.coin('bib', 1, 4))
 
 
@@ -83,9 +84,9 @@ def _make_ctr(req):
 
 def _relay_bytes(req):
     pri = dict(flags=req['flags'], crc_type=req['pri_crc'], destination=req['dest'], source='dtn://src/', report_to='dtn:none',
-               create_time=820000000000, seqno=req['tag'], lifetime=3600000)
+               create_time=req.get('ctime', 820000000000), seqno=req['tag'], lifetime=3600000)
     if req['flags'] & rfc9171.FLAG_IS_FRAGMENT:
-        pri.update(frag_offset=10, total_adu_len=req['plen'] + 20)
+        pri.update(frag_offset=req.get('frag_offset', 10), total_adu_len=req['plen'] + 20)
     blocks = [dict(type=blk['type'], num=2 + ix, flags=blk['flags'], crc_type=blk['crc_type'], btsd=_ext_btsd(blk, ix)) for (ix, blk) in enumerate(req['blocks'])]
     blocks.append(dict(type=1, num=1, flags=0, crc_type=req['pay_crc'], btsd=bc.body(req['tag'], req['plen'])))
     return rfc9171.encode_bundle(pri, blocks)
